@@ -170,6 +170,10 @@ class Ctx:
         meta = tempfile.mkdtemp(prefix="meta-", dir=self.scratch)
         w = str(workers if workers is not None else (NCPU if self.thorough else min(8, NCPU)))
         jopts = ["-XX:+UseParallelGC", "-Xss64m"]
+        if not heap and str(w) == "1":
+            # single-worker runs (trace validation, behaviour generation) are started many at a time: without a cap every JVM
+            # may grow to a quarter of the machine's memory and the kernel kills one of them
+            heap = "4g"
         if heap:
             jopts.append("-Xmx%s" % heap)
         if deque:
